@@ -270,6 +270,76 @@ Lemma follow_loaded_refuted :
   c11_two_ok rc_today FollowLoaded (safe_file_dump_ops true) (safe_file_dump_ops false) = false.
 Proof. vm_compute. reflexivity. Qed.
 
+(* ---- a killed training can be re-run ------------------------------------------------------------------ *)
+Section Train.
+Variable B : Type.
+Variable bytes : payload -> list B.
+Variable decode : list B -> option payload.
+Hypothesis decode_bytes : forall p, decode (bytes p) = Some p.
+Hypothesis decode_prefix : forall p j, j < length (bytes p) -> decode (firstn j (bytes p)) = None.
+Hypothesis decode_nil : decode [] = None.
+
+(* whatever a kill during the training leaves - n training ops issued, open file cut at j - is one of
+   the enumerated (files, directories) states *)
+Lemma tcrash_sound : forall (tops : list top) (c0 : cstate B) (a0 : fstate) (d0 : dset),
+  sim B bytes decode c0 a0 -> run_ok a0 d0 tops = true ->
+  forall n j, exists vd, In vd (tcrash a0 d0 tops)
+     /\ (forall f, classify decode (cview (cexec bytes (tfiles (firstn n tops)) c0) j) f = fst vd f)
+     /\ snd vd = dexec (firstn n tops) d0.
+Proof.
+  induction tops as [|t r IH]; intros c0 a0 d0 Hs Hr n j.
+  - rewrite firstn_nil. simpl.
+    destruct (sim_view B bytes decode decode_prefix c0 a0 j Hs) as (v & Hin & Hv).
+    exists (v, d0). split; [|split; [exact Hv|reflexivity]].
+    rewrite app_nil_r. apply in_map_iff. exists v. split; [reflexivity|exact Hin].
+  - destruct n as [|n].
+    + simpl firstn. simpl tfiles. simpl cexec.
+      destruct (sim_view B bytes decode decode_prefix c0 a0 j Hs) as (v & Hin & Hv).
+      exists (v, d0). split; [|split; [exact Hv|reflexivity]].
+      simpl. apply in_or_app. left. apply in_map_iff. exists v. split; [reflexivity|exact Hin].
+    + simpl in Hr. apply andb_prop in Hr. destruct Hr as [He Hr].
+      destruct t as [d ok|d|o].
+      * destruct (IH c0 a0 (dupd d0 d) Hs Hr n j) as (vd & Hin & Hv & Hd).
+        exists vd. split; [|split; [exact Hv|exact Hd]]. simpl. apply in_or_app. right. exact Hin.
+      * destruct (IH c0 a0 (dupd d0 d) Hs Hr n j) as (vd & Hin & Hv & Hd).
+        exists vd. split; [|split; [exact Hv|exact Hd]]. simpl. apply in_or_app. right. exact Hin.
+      * simpl in He.
+        destruct (IH (cstep bytes c0 o) (astep a0 o) d0
+                     (sim_step B bytes decode decode_bytes decode_nil c0 a0 o Hs He) Hr n j) as (vd & Hin & Hv & Hd).
+        exists vd. split; [|split; [exact Hv|exact Hd]]. simpl. apply in_or_app. right. exact Hin.
+Qed.
+
+(* for EVERY training op list accepted by the checker: after any kill during the training, every
+   operation of the same training - which the resumed sampler runs again - is enabled (no mkdir on an
+   existing directory without exist_ok, no rename of a missing file, ...) *)
+Theorem train_reusable_sound : forall (tops : list top) (a0 : fstate) (d0 : dset),
+  train_reusable a0 d0 tops = true ->
+  forall c0 : cstate B, sim B bytes decode c0 a0 ->
+  forall n j, exists v,
+    (forall f, classify decode (cview (cexec bytes (tfiles (firstn n tops)) c0) j) f = v f)
+    /\ run_ok (closed v) (dexec (firstn n tops) d0) tops = true.
+Proof.
+  intros tops a0 d0 H c0 Hs n j.
+  unfold train_reusable in H. apply andb_prop in H. destruct H as [Hr Hall].
+  destruct (tcrash_sound tops c0 a0 d0 Hs Hr n j) as ([v ds] & Hin & Hv & Hd).
+  rewrite forallb_forall in Hall. specialize (Hall (v, ds) Hin). simpl in *. subst ds.
+  exists v. split; assumption.
+Qed.
+End Train.
+
+Lemma train_today_reusable : train_reusable_all train_ops_today = true.
+Proof. vm_compute. reflexivity. Qed.
+
+(* a bare os.makedirs(level_output) - "each level is trained exactly once" - is refuted: killed after the
+   directory exists, the retraining raises FileExistsError, on every later resume too *)
+Lemma train_bare_mkdir_refuted :
+  let tops := train_ops_bare_mkdir (DLvl 0) (Base (Lvl 0)) (WtP 6) in
+  run_ok (closed empty_fs) no_dirs tops = true
+  /\ exists i, i < length (tcrash (closed empty_fs) no_dirs tops)
+       /\ (let vd := nth i (tcrash (closed empty_fs) no_dirs tops) (empty_fs, no_dirs) in
+           run_ok (closed (fst vd)) (snd vd) tops = false).
+Proof. intro tops. split; [vm_compute; reflexivity|]. exists 1. split; [vm_compute; lia|vm_compute; reflexivity]. Qed.
+
 (* ---- today's hand-copied writers pass (the regenerated ones are checked on every run) ------------ *)
 Lemma today_hand : c11_ok rc_today (safe_file_dump_ops true) (safe_file_dump_ops false)
                           save_weights_ops save_weights_ops = true.
